@@ -102,6 +102,14 @@ def time_div_cases(rng):
             for op in ("div", "divas"):
                 L.append("q %s T:%d D:%d" % (op, a, b))
                 L.append("q %s D:%d D:%d" % (op, a, b))
+    # dividend = ±divisor (n / n = 1, n / -n = -1): a sign computed from an XOR or a difference of the operands vanishes exactly there
+    for n in [1, -1, 2, -7, 1000, 2 ** 31, -(2 ** 31), 2 ** 40 + 3, -(2 ** 62), I64_MAX, rng.randint(2, 10 ** 12)]:
+        for m in (n, -n):
+            if -(2 ** 63) <= m <= 2 ** 63 - 1:
+                for op in ("div", "divas"):
+                    L.append("q %s T:%d D:%d" % (op, n, m))
+                    L.append("q %s D:%d D:%d" % (op, n, m))
+                L.append("q div T:%d T:%d" % (n, m))
     return L
 
 
@@ -158,7 +166,7 @@ def gen_C01(rng, tier):
         # mixed operands
         for op in ["add", "sub", "mul", "div", "addas", "subas", "mulas", "divas"]:
             for _ in range(2):
-                t = rng.choice([rng.randint(-10 ** 13, 10 ** 13)] * 4 + [0, 1, -1])      # Time(0) as a divisor: the result is ±inf / NaN, as for the converted operand
+                t = rng.choice([rng.randint(-10 ** 13, 10 ** 13)] * 4 + [0, 1, -1, I64_MIN, I64_MAX])      # Time(0) as a divisor; i64::MIN has no negation: the result is ±inf / NaN, as for the converted operand
                 # integers beyond 2^24 with low bits set are not f32 values: the operator must round them FIRST (`Quantity::from`)
                 d = rng.choice([rng.randint(-10 ** 6, 10 ** 6), strat_i64(rng), rng.choice([-1, 1]) * (2 ** rng.randint(24, 40) + rng.randint(1, 7))])
                 L.append("q %s %s T:%d" % (op, q(rand_f(rng), m, s), t))
@@ -183,6 +191,19 @@ def gen_C01(rng, tier):
         L.append("q %s %s %s" % (op, q(rand_f(rng), m1, s1), q(rand_f(rng), m2, s2)))
         L.append("q %s U:%d,%d U:%d,%d" % (rng.choice(["add", "sub", "mul", "div", "mulas", "divas"]), m1, s1, m2, s2))
     L += i8_edge_cases(rng, n_of(tier, 300, 2000))
+    # signed zeros and the extreme integers in the mixed forms: x - Time(0) keeps the sign of a zero x (it is x - (+0.0), not x + (-(0))),
+    # and i64::MIN converts like any other integer
+    for z in ("00000000", "80000000"):
+        for op in ("add", "sub", "addas", "subas", "mul", "div"):
+            L.append("q %s Q:%s:0,1 T:0" % (op, z))
+            L.append("q %s Q:%s:0,0 D:0" % (op, z))
+            if not op.endswith("as"):
+                L.append("q %s T:0 Q:%s:0,1" % (op, z))
+                L.append("q %s D:0 Q:%s:0,0" % (op, z))
+    for ext in (I64_MIN, I64_MAX, I64_MIN + 1):
+        for op in ("add", "sub", "addas", "subas", "mul", "div", "mulas", "divas"):
+            L.append("q %s %s T:%d" % (op, q(rand_f(rng), 0, 1) if op[:3] in ("add", "sub") else q(rand_f(rng), 1, -1), ext))
+            L.append("q %s %s D:%d" % (op, q(rand_f(rng), 0, 0) if op[:3] in ("add", "sub") else q(rand_f(rng), 1, -1), ext))
     # "panics if and only if the units differ" — also where the operation runs inside a destructor during unwinding from another panic
     for (m1, s1) in GRID[::5]:
         for (m2, s2) in [(m1, s1)] + GRID[::11]:
@@ -1989,6 +2010,11 @@ def gen_C16(rng, tier):
                 if so: ops.append("ss:0:%s" % datum_state(rng, 5))
                 if sp: ops.append("ss:1:%s" % datum_state(rng, 7))
                 L.append("dv free:2 -- %s" % " ".join(ops + ["ra"]))
+    # both ends of a connection hold the SAME datum (same time, same value — as after an Invert / Axle update): still two written slots
+    for _ in range(6):
+        d = datum_state(rng, rng.randint(-9, 9))
+        L.append("dv free:2 -- c:0:1 ss:0:%s ss:1:%s ra oa" % (d, d))
+        L.append("dv axle:2 free:2 -- c:0:2 c:1:3 ss:2:%s u:0 ra u:0 ra oa" % d)
     # the same reads while the caller holds a mutable borrow of the terminal itself, of its partner, or of an unrelated terminal:
     # a RefCell borrow error (panic) in the first two cases — never an answer assembled from slots that were not written
     for so in (0, 1):
@@ -2197,6 +2223,15 @@ def gen_C19(rng, tier):
     L += const_use_cases(rng)
     L += time_div_cases(rng)
     L += setter_cases(rng, 40)
+    # quantities whose unit is exactly SECOND (or dimensionless) mixed with Time / DimensionlessInteger: a route that exists only for
+    # that unit — and therefore only in builds that can see units — must give the same bits as the generic one
+    for _ in range(60):
+        t = rng.choice([rng.randint(1, 10 ** 10), 10 ** 9 + rng.randint(1, 99), strat_i64(rng)])
+        op = rng.choice(["add", "sub", "mul", "div", "addas", "subas", "mulas", "divas"])
+        L.append("q %s %s T:%d" % (op, q(rand_f(rng), 0, 1), t))
+        L.append("q %s %s D:%d" % (op, q(rand_f(rng), 0, 0) if op[:3] in ("add", "sub") else q(rand_f(rng), 0, 1), rng.choice([2, 3, 7, 0, rng.randint(-10 ** 6, 10 ** 6)])))
+        if not op.endswith("as"):
+            L.append("q %s T:%d %s" % (op, t, q(rand_f(rng), 0, 1)))
     L += subsample(rng, gen_C14(rng, "quick"), 2 * n)
     L += subsample(rng, gen_C03(rng, "quick"), n)
     L += subsample(rng, gen_C02(rng, "quick"), n)
